@@ -1140,4 +1140,37 @@ mod tests {
 #[allow(missing_docs, unused_imports, dead_code, clippy::all, clippy::pedantic, clippy::nursery)]
 pub mod verif_hooks {
     use super::*;
+    use crate::{crypto::CryptoKey, repofile::MasterKey};
+
+    /// decrypt raw stored bytes with the repository key (`None` = MAC check failed / too short)
+    pub fn decrypt(key: &MasterKey, data: &[u8]) -> Option<Vec<u8>> {
+        key.key().decrypt_data(data).ok()
+    }
+    /// encrypt bytes with the repository key
+    pub fn encrypt(key: &MasterKey, data: &[u8]) -> Vec<u8> {
+        key.key().encrypt_data(data).unwrap()
+    }
+    /// `zstd::decode_all` as used by `check_pack` and the read path
+    pub fn zstd_decode(data: &[u8]) -> Option<Vec<u8>> {
+        decode_all(data).ok()
+    }
+    /// `PackHeader::from_binary(..).into_blobs()`
+    pub fn parse_header(data: &[u8]) -> Option<Vec<crate::repofile::IndexBlob>> {
+        PackHeader::from_binary(data).ok().map(PackHeader::into_blobs)
+    }
+    /// `PackHeaderLength::from_binary(..).to_u32()`
+    pub fn parse_header_length(data: &[u8]) -> Option<u32> {
+        PackHeaderLength::from_binary(data).ok().map(PackHeaderLength::to_u32)
+    }
+    /// variant name and level of every finding
+    pub fn findings(res: &CheckResults) -> Vec<(bool, String)> {
+        res.0
+            .iter()
+            .map(|(l, e)| {
+                let d = format!("{e:?}");
+                let name = d.split([' ', '{', '(']).next().unwrap_or("").to_string();
+                (*l == CheckErrorLevel::Error, name)
+            })
+            .collect()
+    }
 }
